@@ -68,4 +68,16 @@ var specs = map[string]propSpec{
 		Rule: "rapid generates a world (one path, 1-2 files, layout stress, half-typed values, 0-2 edits; 25% of cases with candidate populations of 95-130 attributes / blocks / dependent-body labels) and runs completion with and without required-field prefilling at every character boundary. Validity predicate per candidate: edit is for the requested file, range well formed, starts at or before the cursor, reaches the cursor up to blanks; plain text free of tab-stop syntax; snippet tab stops (stop 0 aside) consecutive and used once. Per list: at most 100 entries; a list marked complete whose attribute has a registered, runnable hook is a violation; a list at the limit marked complete is probed metamorphically (type one more character from [a-z0-9_]: every candidate offered then must already be in the complete list). evaluations = candidates checked. Non-trivial = some non-empty list was produced with a typed prefix or a list reached the limit; distinct = SHA-1 of the case JSON.",
 		Assumptions: append([]string{"hook-provided insert text is caller content and is not snippet-checked", "ranges inside top-level items whose parser AST is inconsistent are attributed upstream (counted)"}, commonAssumptions...),
 	},
+	"C20": {
+		Test: "TestC20", Quick: 3000, Thorough: 30000, Shards: 16,
+		QuickTimeout: 10 * time.Minute, ThoroughTimeout: 40 * time.Minute,
+		Rule: "rapid generates a function table (6 functions, 0-3 fixed parameters, optional variadic, one parameterless) and call trees of depth 1-3 whose arguments are literals (incl. strings containing commas and parentheses), references, collections, nested known/unknown calls wrapped in parentheses, templates, operators, conditionals, lists and objects, with too few / too many arguments, trailing commas, empty slots, blanks and newlines; 35% of cases are truncated to a prefix (half-typed). The generator records for every call its parentheses and own commas (annotation = reference model). SignatureAtPos runs at every character boundary. Soundness on all inputs: a returned signature must be of a known function enclosing the cursor, its parameters = fixed ++ variadic, active index valid; on parse-clean text it must be the innermost enclosing known call and the active index = commas to the left of the cursor clamped to the variadic parameter, none when the slot exceeds the parameters. Completeness (a signature must be returned) only on parse-clean text with the cursor strictly inside the parentheses. evaluations = positions checked. Non-trivial = a known call with >= 2 argument slots or nesting >= 2; distinct = SHA-1 of the case JSON.",
+		Assumptions: append([]string{"don't-care: cursor exactly at the opening parenthesis; calls with an empty argument slot (f(a, , b)), where the parser's recovery decides"}, commonAssumptions...),
+	},
+	"C18": {
+		Test: "TestC18", Quick: 200, Thorough: 2000, Shards: 16,
+		QuickTimeout: 10 * time.Minute, ThoroughTimeout: 40 * time.Minute,
+		Rule: "rapid generates a world (1-2 paths x 1-2 files, layout stress, occasional edits), an insertion point at a line start outside every top-level item (or EOF after a trailing newline; offset 0 excluded because the root body's own start does not move) and 1-5 inserted lines (blank, '#', '//', '/* */', multi-byte comment text, CRLF when the file uses it). Precondition checked on the parser: the translated file's top-level AST equals the shifted AST of the original (otherwise the case is counted as excluded). Metamorphic oracle: for every query kind at every cursor (<= 150 boundaries per file) result(original, p) with all ranges of the edited file shifted by the inserted lines/bytes == result(translated, shift(p)) in canonical form (references re-collected in the translated world; errors compared by type). evaluations = comparisons. Non-trivial = insertion before an item and some compared result non-empty; distinct = SHA-1 of the case JSON.",
+		Assumptions: commonAssumptions,
+	},
 }
